@@ -188,6 +188,7 @@ type Violation struct {
 	Decisions []Decision
 	Actions   []string
 	Observes  []string
+	Threads   []string // thread states at the point of the violation
 }
 
 type NondetVal struct {
